@@ -19,6 +19,14 @@ var purePkgs = map[string]bool{"strings": true, "strconv": true, "fmt": true, "e
 	"runtime": true, "runtime/debug": true, "encoding/json": true, "bytes": true, "io": true, "bufio": true, "unsafe": true,
 	"github.com/krotik/common/timeutil": true, "sync/atomic": false}
 
+// sliceWriterPkgs: packages otherwise treated as free of effects on repository objects whose
+// functions fill slices handed to them (Read, ReadAt, ReadFull, Unmarshal, ...).
+var sliceWriterPkgs = map[string]bool{"os": true, "io": true, "io/ioutil": true, "bufio": true, "bytes": true, "encoding/json": true,
+	"math/rand": true, "reflect": true, "unsafe": true}
+
+// ptrWriterPkgs: decoders store through the pointers handed to them (json.Unmarshal(data, &v)).
+var ptrWriterPkgs = map[string]bool{"encoding/json": true, "encoding/binary": true, "encoding/gob": true, "encoding/xml": true}
+
 func (e *enc) goStmt(b *ssa.BasicBlock, g *ssa.Go) {
 	for _, a := range g.Call.Args {
 		e.val(a)
@@ -287,7 +295,11 @@ func (e *enc) callCommon(b *ssa.BasicBlock, ins ssa.Instruction, cc *ssa.CallCom
 	e.callHook(ins, key, callee, R)
 	e.havocByEffects(ins)
 	if !(callee.Pkg != nil && e.w.InRepo[callee.Pkg]) {
-		e.assumptions["library call "+key+": result unconstrained; effects on repo objects only through pointer/interface/function arguments"] = true
+		if pp := pkgPathOf(callee); purePkgs[pp] {
+			e.assumptions["library call "+key+": result unconstrained; package "+pp+" is treated as free of effects on repository objects (excepted: elements of slices handed to os/io/bufio/bytes/json/rand functions and objects handed by pointer to decoders are havocked)"] = true
+		} else {
+			e.assumptions["library call "+key+": result unconstrained; effects on repo objects only through pointer/interface/function/slice arguments"] = true
+		}
 	}
 }
 
@@ -303,7 +315,7 @@ func (e *enc) havocByEffects(ins ssa.Instruction) {
 	mi := e.w.Mod
 	eff := map[string]bool{}
 	callees := map[*ssa.Function]bool{}
-	mi.callEffects(e.f, ci, func(a string) { eff[a] = true }, callees)
+	mi.callEffects(e.f, ci, func(a string) { eff[a] = true }, callees, true)
 	for c := range callees {
 		t, ok := mi.modOf(c)
 		if !ok {
@@ -1016,6 +1028,11 @@ func (e *enc) siteAsserts(ins ssa.Instruction, site string, sig *types.Signature
 		if sc.Kind == "assume" {
 			e.assumeAt(R, t)
 			e.assumptions[fmt.Sprintf("assume %s in %s", sc.Label, e.key)] = true
+			continue
+		}
+		if sc.Kind == "prove" {
+			e.addI("assert", sc.Label, ins, R, t)
+			e.assumeAt(R, t)
 			continue
 		}
 		if sc.Kind == "finding" {
